@@ -16,8 +16,10 @@
                       on-release called (-> True); none of them -> None
      quiet e          e starts no discovery / activation step (mute, sense_*, listen_*, activate, emulate)
      seg b l fin      l contains only events of block b and its callbacks are one of
-                      [] | discover | discover connect(false) | discover connect(true) release |
-                      (llcp: connect(false) | connect(true) release); fin = the segment ends connect()
+                      [] | discover | discover connect | discover connect(true) release |
+                      (llcp: connect | connect(true) release); all but the first two only with
+                      fin = the segment ends connect(); "connect" without release as last callback:
+                      it returned a false value (object returned) or an exception ended the hold phase
      rounds           terminate() poll, then the rdwr, llcp, card segments in this order, repeated *)
 From Coq Require Import ZArith List Bool.
 From NV Require Import Model.Connect Proofs.ConnectSense Proofs.Connect Proofs.ConnectTrace Proofs.ConnectFuel.
@@ -33,13 +35,24 @@ Proof. exact connect_trace_shape_proof. Qed.
 Print Assumptions C18_connect_trace_shape.
 
 (* --- on-release exactly once for every on-connect that returned a true value, after it and before
-       any other callback, and never otherwise --- *)
+       any other callback, and never otherwise.  The one documented way out: an exception (IOError,
+       KeyboardInterrupt) that ends the hold phase terminates connect() with False; on-release is then
+       not called for that last on-connect (the documentation of on-release names only "communication
+       has become impossible" and "terminate returned true").
+       release_ok r x :=  x = Some None  \/  ((exists b, x = Some (Some b)) /\ r = Ret RFalse)
+
+       The literal reading without this exception clause,
+         forall ..., connect true o fuel inner s = (r, l, s') -> r <> Hang -> held_after None (cbs l) = Some None,
+       is false of the code as it is: witness C18_release_skipped_by_exception below (IOError out of the
+       presence check).  Decision recorded in the C18 report: not a defect, the documentation does not
+       promise on-release in that case. --- *)
 Theorem C18_release_iff_connect_true : forall o fuel inner s r l s',
-  connect true o fuel inner s = (r, l, s') -> r <> Hang -> held_after None (cbs l) = Some None.
+  connect true o fuel inner s = (r, l, s') -> r <> Hang -> release_ok r (held_after None (cbs l)).
 Proof. exact release_iff_connect_true_proof. Qed.
 Print Assumptions C18_release_iff_connect_true.
 Theorem C18_release_count : forall o fuel inner s r l s',
-  connect true o fuel inner s = (r, l, s') -> r <> Hang -> n_release (cbs l) = n_connect_true (cbs l).
+  connect true o fuel inner s = (r, l, s') -> r <> Hang ->
+  n_release (cbs l) = n_connect_true (cbs l) \/ (r = Ret RFalse /\ S (n_release (cbs l)) = n_connect_true (cbs l)).
 Proof. exact release_count_proof. Qed.
 Print Assumptions C18_release_count.
 
@@ -124,3 +137,22 @@ Example C18_nonvacuous :
   cbs l = [CStartup Llcp; CStartup Rdwr; CStartup Card; CDiscover Rdwr VObj; CConnect Rdwr VStr; CRelease Rdwr VNone] /\
   spec_result l = Ret RTrue /\ n_release (cbs l) = 1.
 Proof. vm_compute. repeat split; discriminate. Qed.
+
+(* boundary of C18_release_iff_connect_true: on-release is NOT called when an exception ends the hold phase: tag found and activated, default on-connect (True), the presence
+   check raises IOError -> connect() returns False and on-release was never called *)
+Definition ex_opts2 : options :=
+  {| o_rdwr := Some {| r_targets := Some [TsA]; r_startup := RsMissing; r_discover := false; r_connect := false;
+                       r_release := true; r_iters := Some 1%Z; r_beep := None |};
+     o_llcp := None; o_card := None; o_term := true |}.
+Definition ex_st2 : st :=
+  {| s_term := [false; false]; s_termd := true; s_cbs := []; s_sense := [[[SFound]]]; s_ncall := 0;
+     s_listen := []; s_nlisten := 0; s_tagact := [ATag]; s_present := [PIOErr];
+     s_llcact := []; s_llcrun := []; s_emulate := []; s_card := [] |}.
+Theorem C18_release_skipped_by_exception :
+  exists o fuel inner s r l s', connect true o fuel inner s = (r, l, s') /\ r <> Hang /\
+    held_after None (cbs l) <> Some None /\ r = Ret RFalse.
+Proof.
+  exists ex_opts2, 5, 5, ex_st2. eexists. eexists. eexists. split; [vm_compute; reflexivity|].
+  repeat split; vm_compute; discriminate.
+Qed.
+Print Assumptions C18_release_skipped_by_exception.
